@@ -274,11 +274,23 @@ Fixpoint syncs_ok (es : list wev) (fs : list frame) : bool :=
   | _ :: t => syncs_ok t fs
   end.
 
+(* map downlinks: a command number n stands for `update key (n mod 3) -> n`; per key the operations sent are, in
+   order, operations given, and once everything has been read the last one of every key has been sent *)
+Definition for_key (k : Z) (l : list Z) : list Z := filter (fun n => (n mod 3 =? k)%Z) l.
+Definition last_opt (l : list Z) : option Z := match List.rev l with [] => None | x :: _ => Some x end.
+Definition opt_eqb (a b : option Z) : bool :=
+  match a, b with None, None => true | Some x, Some y => (x =? y)%Z | _, _ => false end.
+Definition per_key_ok (drained : bool) (sent given : list Z) : bool :=
+  forallb (fun k => is_subseq (for_key k sent) (for_key k given)
+                    && (negb drained || opt_eqb (last_opt (for_key k sent)) (last_opt (for_key k given))))
+          [0; 1; 2]%Z.
+
 Definition dl_oracle_ok (c : dcase) : bool :=
   let sent := commands_of (dc_frames c) in
   let given := commands_in (dc_wevs c) in
   (* commands: never reordered, only dropped; the link request comes first *)
-  is_subseq sent given
+  (if dc_single c then is_subseq sent given && (negb (dc_drained c) || opt_eqb (last_opt sent) (last_opt given))
+   else per_key_ok (dc_drained c) sent given)
   && (match dc_frames c with FLink :: _ | [] => true | _ => false end)
   && (negb (dc_drained c) || syncs_ok (dc_wevs c) (dc_frames c))
   (* every consumer gets the session it is owed *)
